@@ -44,7 +44,8 @@ def _labels_equal(ctx, la, lb):
     return ctx.AND(*[x == y for x, y in zip(la, lb)])
 
 
-def stack_case(ctx, specs, keys='default', form='list', align=False, sort=False, share=None, newname='k', kinds=None):
+def stack_case(ctx, specs, keys='default', form='list', align=False, sort=False, share=None, newname='k', kinds=None, under=None):
+    ctx.under(under)
     arrs, refs = mk_inputs(ctx, specs, share, kinds)
     n = len(arrs)
     if keys == 'int':
@@ -141,7 +142,8 @@ def stack_case(ctx, specs, keys='default', form='list', align=False, sort=False,
     return ctx.done(ctx.AND(*oks), ctx.observe(res))
 
 
-def concat_case(ctx, specs, axis, by='name', align=False, sort=False, share=None, kinds=None):
+def concat_case(ctx, specs, axis, by='name', align=False, sort=False, share=None, kinds=None, under=None):
+    ctx.under(under)
     """concatenate along dims0[axis]"""
     arrs, refs = mk_inputs(ctx, specs, [d for d in (share or []) if d != specs[0][0][axis]], kinds)
     dims0 = list(refs[0].dims)
@@ -276,6 +278,9 @@ def templates():
         add('stack-uneq-1-2-%s' % align, 'stack_case', cost=2, specs=[[[X], [1]], [[X], [2]]], align=align)
         add('stack-uneq-2d-%s' % align, 'stack_case', cost=3, specs=[[[X, Y], [2, 2]], [[X, Y], [1, 2]]], align=align, share=[Y])
         add('concat-uneq-%s' % align, 'concat_case', cost=3, specs=[[[Y, X], [1, 3]], [[Y, X], [2, 1]]], axis=0, align=align)
+    # align=True means an outer join whatever the global default alignment mode
+    add('stack-align-under-inner-option', 'stack_case', cost=3, specs=[[[X], [2]], [[X], [2]]], align=True, under={'align.join': 'inner'})
+    add('concat-align-under-inner-option', 'concat_case', cost=4, specs=[[[Y, X], [1, 2]], [[Y, X], [2, 2]]], axis=0, align=True, under={'align.join': 'inner'})
     add('stack-0d', 'stack_case', cost=0.2, specs=[[[], []], [[], []]])
     add('stack-4in', 'stack_case', 'thorough', cost=20, specs=[[[X], [2]]] * 4, keys='int')
     # concatenate
